@@ -1,15 +1,14 @@
-#!/bin/sh
+#!/bin/bash
 # Self-validation of the checker: every mutant patch must make its expected rule
-# fire; every benign patch must leave all checks silent. One process per variant.
+# fire; every benign patch must leave all checks silent. One process per variant,
+# up to $JOBS (default 6) in parallel, each on its own scratch copy of /repo that is
+# removed as soon as the variant has been judged.
 #   tools/selftest.sh [property-id|all] [mutants|benign|both]
 cd "$(dirname "$0")/.."
 V=$(pwd)
-P=${1:-all}; KIND=${2:-both}
 export GOFLAGS=-mod=mod GOPROXY=off GOSUMDB=off GOTOOLCHAIN=local
-T=$(mktemp -d "${TMPDIR:-/tmp}/gbself.XXXXXX")
-trap 'rm -rf "$T"' EXIT
-run_one() {
-  patch=$1; kind=$2
+if [ "$1" = "--one" ]; then
+  patch=$2; kind=$3; T=$4
   name=$(basename "$patch" .patch)
   expect=$(sed -n 's/^# expect: *//p' "$patch" | head -1)
   prop=$(echo "$expect" | cut -d. -f1)
@@ -17,23 +16,24 @@ run_one() {
   d="$T/$name.$kind"; mkdir -p "$d"
   rsync -a --exclude .git --exclude '*.tmp' /repo/ "$d/"
   if ! ( cd "$d" && patch -p1 -s -f < "$patch" ) >/dev/null 2>&1; then
-    echo "SKIP $kind $name (patch does not apply to the current tree)"; rm -rf "$d"; return 0
+    echo "SKIP $kind $name (patch does not apply to the current tree)"; rm -rf "$d"; exit 0
   fi
   out=$("$V/bin/gbcheck" -verif "$V" -repo "$d" -property "$prop" -tier quick -no-evidence -json "$d.json" 2>&1); code=$?
   rm -rf "$d"
   if [ "$kind" = mutants ]; then
-    if python3 - "$d.json" "$expect" <<'PY'
-import json,sys
-obs=json.load(open(sys.argv[1])); want=sys.argv[2]
-sys.exit(0 if any(o['verdict']=='VIOLATION' and o['rule']==want for o in obs) else 1)
-PY
-    then echo "DETECTED $name ($expect)"; else echo "SELFTEST-FAILED rule=$expect mutant=$name not detected (exit $code)"; echo "$out" | tail -3; rm -f "$d.json"; return 1; fi
+    if python3 "$V/tools/has_violation.py" "$d.json" "$expect"; then echo "DETECTED $name ($expect)"
+    else echo "SELFTEST-FAILED rule=$expect mutant=$name not detected (exit $code) :: $(echo "$out" | grep -v '^ok\|^KNOWN' | tail -2 | tr '\n' ' ' | cut -c1-300)"; fi
   else
-    if [ $code -eq 0 ]; then echo "SILENT $name"; else echo "SELFTEST-FAILED benign=$name raised an alarm (exit $code)"; echo "$out" | grep -v '^ok' | head -5; rm -f "$d.json"; return 1; fi
+    if [ $code -eq 0 ]; then echo "SILENT $name"
+    else echo "SELFTEST-FAILED benign=$name raised an alarm (exit $code) :: $(echo "$out" | grep -v '^ok\|^KNOWN' | head -3 | tr '\n' ' ' | cut -c1-400)"; fi
   fi
   rm -f "$d.json"
-}
-fail=0; n=0
+  exit 0
+fi
+P=${1:-all}; KIND=${2:-both}
+T=$(mktemp -d "${TMPDIR:-/tmp}/gbself.XXXXXX")
+trap 'rm -rf "$T"' EXIT
+list="$T/list"; : > "$list"
 for kind in mutants benign; do
   [ "$KIND" = both ] || [ "$KIND" = "$kind" ] || continue
   for patch in "$V/$kind"/*.patch; do
@@ -42,9 +42,13 @@ for kind in mutants benign; do
       e=$(sed -n 's/^# expect: *//p' "$patch" | head -1)
       case "$kind:$e" in mutants:$P.*|benign:$P|benign:all|benign:) ;; *) continue;; esac
     fi
-    n=$((n+1))
-    run_one "$patch" "$kind" || fail=$((fail+1))
+    echo "$patch $kind $T" >> "$list"
   done
 done
+n=$(wc -l < "$list")
+xargs -P "${JOBS:-6}" -L 1 "$V/tools/selftest.sh" --one < "$list" > "$T/res" 2>&1
+sort "$T/res"
+ok=$(grep -c '^DETECTED\|^SILENT\|^SKIP' "$T/res")
+fail=$((n - ok))
 echo "selftest: $n variants, $fail failures"
-[ $fail -eq 0 ]
+[ "$fail" -eq 0 ]
